@@ -82,8 +82,9 @@ CHECKS = {
         text='Trace_Cipher.tla keeps one CFB8 shift register per direction (key = IV = secret) and requires every chunk the real '
              'EncryptedSocketWrapper sent to be the encryption of its plaintext continuing the stream, and every chunk read through '
              'EncryptedFileObjectWrapper / recv to decrypt likewise with an independent register, for whatever partition into calls '
-             'occurred; it requires the secret to be the single os.urandom(16) draw of that login, 16 bytes, distinct across the '
-             'logins of the run, and secret and verify token to arrive as well-formed PKCS#1 v1.5 type-2 blocks (raw c^d mod n, token '
+             'occurred; it requires the secret to be a 16-byte draw made from the system entropy source during that login (tapped '
+             'at os.urandom, random._urandom and names bound in the module), distinct across the logins of the run although the '
+             'global random generator is re-seeded identically before each, and secret and verify token to arrive as well-formed PKCS#1 v1.5 type-2 blocks (raw c^d mod n, token '
              'lengths 1..64, 1024- and 2048-bit keys). Traces come from whole encrypted logins against the independent peer (which '
              'encrypts with its own CFB8 loop, so interoperation is exercised) and from the wrappers driven directly with random '
              'partitions in both directions.',
@@ -93,15 +94,18 @@ CHECKS = {
     'C17': dict(
         technique='SHA-1 and Java signed-hex written in TLA+ (SHA1.tla, SignedHex.tla); TLC enumerates the formatter and its rows '
                   'are replayed into minecraft_sha1_hash_digest (S->I); recorded update() calls and results of the real '
-                  'generate_verification_hash are recomputed by TLC with its own SHA-1 (I->S)',
+                  'generate_verification_hash, and the string the login reactor hands to AuthenticationToken.join, are recomputed '
+                  'by TLC with its own SHA-1 (I->S)',
         text='SHA1.tla implements FIPS 180 over 16-bit limb pairs (ASSUMEs: the "abc" and empty vectors); SignedHex.tla implements '
              'BigInteger.toString(16) via two\'s complement on byte sequences. HashCases.tla is a transition system over every 1- and '
              '2-byte digest plus structured 20-byte digests (FormatShape invariant) whose rows are replayed into the real formatter, '
              'and over observations of the real function - the three published vectors, digests found by search with a set top bit, a '
              'leading zero nibble and a leading zero byte, and seeded random (id, secret, key) triples with non-ASCII ids - where a '
-             'recording proxy for encryption.sha1 provides the update() calls; TLC requires updates = <<utf8(id), secret, key>> and '
-             'result = SignedHex(SHA1(concatenation)).',
-        note='Trusted: TLC arithmetic and Bitwise overrides. hashlib is checked, not trusted. Use of the hash in the join request is '
+             'recording proxy for encryption.sha1 provides the update() calls for diagnosis; TLC requires result = '
+             'SignedHex(SHA1(utf8(id) o secret o key)). The same is required of the string LoginReactor.react hands to the '
+             'token\'s join for the secret the key holder recovers and the key bytes the server sent, in three encodings the '
+             'client accepts (SubjectPublicKeyInfo, bare PKCS#1, SubjectPublicKeyInfo without NULL parameters).',
+        note='Trusted: TLC arithmetic and Bitwise overrides. hashlib is checked, not trusted. The full login around the join is '
              'C10\'s.',
         design='5/C17'),
     'C14': dict(
